@@ -41,7 +41,7 @@ unrelated failure.
 """
 
 KEYWORDS = ["class", "module", "uses", "const", "type", "proc", "endproc", "func", "endfunc", "return", "var",
-            "if", "endif", "else", "while", "endwhile", "refto", "exit", "override", "private", "inout"]
+            "if", "endif", "else", "while", "endwhile", "refto", "exit", "override", "private", "inout", "break", "continue"]
 NATIVES = ["int4", "cstring", "boolean", "num8", "int1", "text"]
 FIELD_POOL = ["fAlpha", "fBeta", "fGamma", "fDelta", "fCount", "fNext", "fOwner", "fItem"]
 METHOD_POOL = ["Init", "Update", "GetNext", "GetOwner", "Compute", "Reset", "Find", "Make"]
@@ -55,6 +55,13 @@ BODYLESS_PARAM_POOL = ["pFreq", "pDur", "pIdx", "pHandle"]
 # entities a uses list may name although the workspace has no file for them (a library without
 # source, a misspelt name): they declare nothing
 GHOST_POOL = ["wSysLib", "aMissing", "wExtern", "aK9x"]
+# keywords the parser also accepts as identifiers (`parse_ident_token`): as names of parameters (the only declarations
+# that take them) and in expressions
+KWID_POOL = ["type", "from", "order", "top", "by", "into"]
+# type names nothing declares (a variable of such a type has no class: nothing after its dot)
+UNRES_TYPE_POOL = ["tNowhere", "aNoSuchClass"]
+# intrinsics: (name, call) — their results have no class
+INTRINSICS = ["writeln", "concat", "write"]
 
 
 def recase(rng, s, mode=None):
@@ -75,6 +82,8 @@ class Decl:
         self.name, self.kind, self.owner, self.ty = name, kind, owner, ty   # ty: ('native', n) | ('class', Entity) | ('refto', Entity) | ('alias', Decl) | None
         self.sel = None   # (line, col, endcol) once rendered
         self.method = None
+        self.like = None  # "entity" | "keyword" | "method": the name is spelt like a class / module of the workspace, is a
+                          # keyword the parser takes as identifier, is the name of a method of the class chain
 
     def key(self):
         return self.name.upper()
@@ -226,9 +235,20 @@ class Gen:
             return recase(r, n) if r.chance(1, 2) else n
         return r.choice(cands)
 
-    def pick_type(self, e, classes, allow_alias=True):
+    def pick_type(self, e, classes, allow_alias=True, other_than=None):
+        """`other_than`: name a variable carries — its type is never the entity of that name (a variable spelt like
+        an entity is interesting because it is NOT of that entity's type)"""
         r = self.r
-        c = r.below(10)
+        if other_than is not None:
+            classes = [c for c in classes if c.name.upper() != other_than.upper()] or classes
+        c = r.below(11)
+        if c == 10:
+            # a type name nothing declares, or the name of an entity without a file.  The implementation looks for such
+            # a name in every used entity, i.e. analyses them at that moment: only where that cannot meet a half-built
+            # table (the class uses modules only — entities that depend on nothing; see the assumption on alias types)
+            if all(u.kind == "module" for u in e.uses):
+                return ("unres", r.choice(UNRES_TYPE_POOL + GHOST_POOL))
+            c = r.below(10)
         if c < 3 or not classes:
             return ("native", r.choice(NATIVES))
         if c < 7:
@@ -269,6 +289,21 @@ class Gen:
             n = self.pick_name(e, FIELD_POOL, "field")
             if n:
                 e.fields.append(Decl(n, "field", e, self.pick_type(e, classes)))
+        if r.chance(1, 4):
+            # a field spelt like a class / module of the workspace (any letter case) that is no relative of this
+            # entity: it is a variable of its declared type, not the entity
+            declared = {d.key() for a in e.chain() for d in a.members()}
+            # … and whoever sees the members of `e` by the plain rule (its descendants, the entities that use it or a
+            # descendant) does not list that entity in a uses list: what a uses ENTRY is when a variable of that name
+            # is visible is not settled by the property (see notes/C10.md, discrepancies)
+            seers = [y for y in self.entities if e in y.chain() or any(e in z.chain() for z in y.uses)]
+            cands = [x for x in self.entities if x not in e.chain() and e not in x.chain() and x.name.upper() not in declared
+                     and not any(x in y.uses for y in seers)]
+            if cands:
+                x = r.choice(cands)
+                d = Decl(recase(r, x.name) if r.chance(1, 2) else x.name, "field", e, self.pick_type(e, classes, other_than=x.name))
+                d.like = "entity"
+                e.fields.insert(r.below(len(e.fields) + 1), d)
         for _ in range(1 + r.below(4)):
             kind = "func" if r.chance(1, 2) else "proc"
             n = self.pick_name(e, METHOD_POOL, kind)
@@ -294,36 +329,68 @@ class Gen:
                 if cands2:
                     n = r.choice(cands2)
                     return recase(r, n) if r.chance(1, 3) else n
+            c = r.below(16)
+            if c < 3:
+                # spelt like a class / module of the workspace (the own class, a relative, a used or any other entity),
+                # in any letter case
+                cands2 = [x.name for x in self.entities if x.name.upper() not in used]
+                if cands2:
+                    n = r.choice(cands2)
+                    like[0] = "entity"
+                    return recase(r, n) if r.chance(1, 2) else n
+            elif c < 4:
+                # named like a method of the class or of an ancestor
+                cands2 = [mm.decl.name for a in e.chain() for mm in a.methods if mm.decl.name.upper() not in used]
+                if cands2:
+                    n = r.choice(cands2)
+                    like[0] = "method"
+                    return recase(r, n) if r.chance(1, 3) else n
+            elif c < 5 and pool is not LOCAL_POOL:
+                # a keyword that is also an identifier (parameters only: `var` and fields take plain identifiers)
+                cands2 = [n for n in KWID_POOL if n.upper() not in used]
+                if cands2:
+                    n = r.choice(cands2)
+                    like[0] = "keyword"
+                    return recase(r, n) if r.chance(1, 3) else n
             return r.choice(cands) if cands else None
 
+        like = [None]
         nparams = (1 + r.below(3)) if m.bodyless else r.below(3)
         for _ in range(nparams):
+            like[0] = None
             n = local_name(PARAM_POOL + BODYLESS_PARAM_POOL if m.bodyless else PARAM_POOL)
             if n:
                 used.add(n.upper())
-                d = Decl(n, "param", e, self.pick_type(e, classes))
+                d = Decl(n, "param", e, self.pick_type(e, classes, other_than=n))
                 d.method = m
+                d.like = like[0]
                 if r.chance(1, 8):
                     d.ty = None
                     m.untyped.add(d)
                 m.params.append(d)
         for _ in range(0 if m.bodyless else r.below(4)):
+            like[0] = None
             n = local_name(LOCAL_POOL)
             if n:
                 used.add(n.upper())
-                d = Decl(n, "local", e, self.pick_type(e, classes))
+                d = Decl(n, "local", e, self.pick_type(e, classes, other_than=n))
                 d.method = m
+                d.like = like[0]
                 m.locals.append(d)
 
     # ---- the property's rules ---------------------------------------------------------------
-    def resolve_plain(self, e, m, key):
-        """[declaration] selected for a plain identifier, or []"""
-        if m is not None:
+    NONVAR = ("const", "type", "proc", "func")
+
+    def resolve_plain(self, e, m, key, novars=False):
+        """[declaration] selected for a plain identifier, or [].  `novars`: the name stands in TYPE position (type
+        reference): parameters, locals and fields are no candidates there — a variable is not a type"""
+        if m is not None and not novars:
             for d in reversed(m.params + m.locals):
                 if d.key() == key:
                     return [d]
+        kinds = self.NONVAR if novars else None
         for a in e.chain():
-            d = a.find(key)
+            d = a.find(key, kinds)
             if d is not None:
                 return [d]
         uses = e.uses
@@ -332,7 +399,7 @@ class Gen:
                 d = a.find(key, kinds=("const", "type"))
                 if d is not None:
                     return [d]
-                if a.find(key) is not None:
+                if a.find(key, kinds) is not None:
                     break    # hidden by a nearer non-const/type declaration of the used entity
             else:
                 continue
@@ -468,16 +535,35 @@ class Gen:
         if ty[0] == "native":
             L.add(self.ref(ty[1]))
             return
+        if ty[0] == "unres":
+            txt = self.ref(ty[1])
+            col = L.col()
+            L.add(txt)
+            exp = self.resolve_plain(e, m, ty[1].upper())
+            t = set(tags) | {"typeref", "unresolved-type"} | ({"unresolvable"} if not exp else set()) | ({"recased"} if txt != ty[1] else set())
+            L.pending.append(lambda ln, col=col, n=len(txt), exp=exp, t=t, name=ty[1]: self.qdef(ln, col, n, exp, t, "type reference " + name + " (nothing declares it)"))
+            return
         if ty[0] == "refto":
             L.add(self.kw("refto") + " ")
         name = ty[1].name
         txt = self.ref(name)
         col = L.col()
         L.add(txt)
-        exp = self.resolve_plain(e, m, name.upper())
+        exp = self.resolve_plain(e, m, name.upper(), novars=True)
         t = set(tags) | {"typeref"} | self.ghost_tags(e, exp)
         if txt != name:
             t.add("recased")
+        if self.resolve_plain(e, m, name.upper()) != exp:
+            # a parameter / local / field spelt like the type is visible: the implementation answers with that variable
+            # (recorded finding C10:…:typeref-shadowed; the node's eval type IS the class)
+            if "typeref-shadowed" not in self.dev:
+                return
+            t.add("typeref-shadowed")
+        if self.uses_member_hit(e, m, name.upper()):
+            # a used entity declares a FIELD of that name (a field spelt like an entity): the recorded uses-member deviation
+            if "uses-member" not in self.dev:
+                return
+            t.add("uses-member")
         L.pending.append(lambda ln, col=col, n=len(txt), exp=exp, t=t, name=name: self.qdef(ln, col, n, exp, t, "type reference " + name))
 
     def render_entity(self, e):
@@ -617,14 +703,14 @@ class Gen:
             out.append(("self", ("class", e), [e.header], {"self"}, False, set()))
         for d in m.params + m.locals:
             if self.resolve_plain(e, m, d.key()) == [d]:
-                t = {"local"}
+                t = {"local"} | self.like_tags(d)
                 if any(a.find(d.key()) for a in e.chain()):
                     t.add("shadowing")
                 out.append((d.name, d.ty, [d], t, False, set()))
         for a in e.chain():
             for f in a.fields:
                 if self.resolve_plain(e, m, f.key()) == [f]:
-                    out.append((f.name, f.ty, [f], {"member" if a is e else "inherited"}, False, set()))
+                    out.append((f.name, f.ty, [f], {"member" if a is e else "inherited"} | self.like_tags(f), False, set()))
             for mm in a.methods:
                 if mm.decl.kind == "func" and self.resolve_plain(e, m, mm.decl.key()) == [mm.decl]:
                     bad = {"forward"} if (a is e and e.methods.index(mm) > self.m_index) else set()
@@ -634,6 +720,30 @@ class Gen:
                 out.append((u.name, ("module", u), [u.header], {"module"}, False, set()))
         return out
 
+    LIKE_TAGS = {"entity": "entity-named", "keyword": "kw-named", "method": "method-named"}
+
+    def like_tags(self, d):
+        return {self.LIKE_TAGS[d.like]} if getattr(d, "like", None) else set()
+
+    def classless_starts(self, e, m):
+        """first elements of a chain that have no class at all: names nothing declares (also keywords used as
+        identifiers, names of entities without a file), procedures, intrinsics"""
+        out = []
+        names = ["zzNothing", "qUnknown"] + KWID_POOL[:3] + [u.name for u in e.uses_written if u.kind == "ghost"]
+        for n in names:
+            if not self.resolve_plain(e, m, n.upper()) and not self.uses_member_hit(e, m, n.upper()):
+                out.append((n, None, [], {"unresolvable"}, False, set()))
+        for a in e.chain():
+            for mm in a.methods:
+                if mm.decl.kind == "proc" and self.resolve_plain(e, m, mm.decl.key()) == [mm.decl]:
+                    # declared further down in the class under annotation: not in its table yet when the call is typed
+                    bad = {"forward"} if (a is e and e.methods.index(mm) > self.m_index) else set()
+                    out.append((mm.decl.name, None, [mm.decl], {"member" if a is e else "inherited", "call", "proc-result"}, True, bad))
+        for n in INTRINSICS:
+            if not self.resolve_plain(e, m, n.upper()) and not self.uses_member_hit(e, m, n.upper()):
+                out.append((n, None, [], {"intrinsic", "call", "unresolvable"}, True, set()))
+        return out
+
     def chain(self, e, m, maxlen=3, want_entity=False):
         """a dotted chain: list of elements {name, exp, tags, call, ty, ctx, bad}; `bad` = deviations
         that affect the element's eval type (hence everything after the next dot)"""
@@ -641,16 +751,26 @@ class Gen:
         st = self.starts(e, m)
         if want_entity:
             st = [s for s in st if class_of(s[1]) is not None]
+        elif r.chance(1, 8):
+            st = self.classless_starts(e, m) or st
         if not st:
             return None
-        name, ty, exp, tags, isfunc, bad = r.choice(st)
+        # variables spelt like an entity / a keyword / a method are rare among the candidates: prefer them now and then
+        special = [s for s in st if s[3] & {"entity-named", "kw-named", "method-named"}]
+        name, ty, exp, tags, isfunc, bad = r.choice(special) if special and r.chance(1, 3) else r.choice(st)
         elems = [{"name": name, "exp": exp, "tags": set(tags), "call": isfunc, "ty": ty, "ctx": "left", "bad": set(bad)}]
         n = 1 + r.below(maxlen)
         for i in range(1, n):
             prev = elems[-1]
             ent = class_of(prev["ty"])
             if ent is None:
-                break
+                # an operand of native / unknown type: whatever is written after its dot resolves to nothing
+                if want_entity or not r.chance(1, 2):
+                    break
+                own = [f.name for a in e.chain() for f in a.fields] + [mm.decl.name for a in e.chain() for mm in a.methods]
+                nm = r.choice(own) if own and r.chance(1, 2) else r.choice(FIELD_POOL + METHOD_POOL + KWID_POOL[:3])
+                elems.append(self.member_elem(e, m, prev, nm, i, r.chance(1, 4)))
+                continue
             cands = [f for a in ent.chain() for f in a.fields] + [mm.decl for a in ent.chain() for mm in a.methods]
             if not cands:
                 break
@@ -671,6 +791,7 @@ class Gen:
         if i >= 2:
             t.add("chained")
         decls = self.resolve_member(ent, name.upper()) if ent is not None else []
+        t |= self.operand_tags(prev)
         if not decls:
             t.add("unknown-operand" if ent is None else "no-such-member")
             return {"name": name, "exp": [], "tags": t, "call": call, "ty": None, "ctx": "right", "bad": bad}
@@ -693,13 +814,29 @@ class Gen:
         nty = near.ty if near.kind in ("field", "func") else None
         return {"name": name, "exp": decls, "tags": t, "call": call, "ty": nty, "ctx": "right", "bad": bad}
 
+    def operand_tags(self, left):
+        """scenario tags a position after a dot inherits from its left operand"""
+        t = set()
+        if left["tags"] & {"entity-named", "after-entity-named"}:
+            t.add("after-entity-named")
+        if left["tags"] & {"kw-named", "method-named"}:
+            t.add("after-odd-named")
+        ty = left["ty"]
+        if ty is None:
+            t.add("operand-untyped")          # untyped parameter, procedure, intrinsic, a name nothing declares, no such member
+        elif class_of(ty) is None:
+            t.add("operand-" + ty[0])         # native, unres, alias (of a native type)
+        return t
+
     def method_of(self, e, decl):
         for mm in e.methods:
             if mm.decl is decl:
                 return mm
         return None
 
-    DEVS = ("forward", "modcall", "shadow-self")
+    # scenarios generated only on demand (recorded findings).  `modcall` and `shadow-self` were deviations until the
+    # implementation was repaired; they are ordinary shapes now (the tags stay, as scenario names)
+    DEVS = ("forward",)
 
     def allowed(self, elems):
         for el in elems:
@@ -708,12 +845,25 @@ class Gen:
                     return False
         return True
 
-    def pick_chain(self, e, m, maxlen=3, want_entity=False):
-        for _ in range(8):
+    def pick_chain(self, e, m, maxlen=3, want_entity=False, want_classless=False):
+        """`want_entity`: the chain's value has a class (members exist after its dot); `want_classless`: it has
+        none (native / unresolved type, untyped, unresolvable, procedure, intrinsic, no such member)"""
+        for _ in range(12 if want_classless else 8):
             elems = self.chain(e, m, maxlen, want_entity)
-            if elems and self.allowed(elems) and (not want_entity or class_of(elems[-1]["ty"]) is not None):
-                return elems
+            if not elems or not self.allowed(elems):
+                continue
+            has = class_of(elems[-1]["ty"]) is not None
+            if (want_entity and not has) or (want_classless and has):
+                continue
+            return elems
         return None
+
+    def pick_operand(self, e, m):
+        """the chain left of a dangling / partial dot: one in three has no class"""
+        elems = None
+        if self.r.chance(1, 3):
+            elems = self.pick_chain(e, m, maxlen=2, want_classless=True)
+        return elems or self.pick_chain(e, m, maxlen=2, want_entity=True)
 
     def write_chain(self, L, e, m, elems):
         """write the chain, queue one definition query per element and one completion query per dot"""
@@ -743,7 +893,7 @@ class Gen:
         """completion right after a dot whose left operand is `left` (position anywhere in [col, col+width])"""
         ent = class_of(left["ty"])
         exp = self.visible_members(ent) if ent is not None else []
-        tags = {"dot"} | set(tags) | left["bad"]
+        tags = {"dot"} | set(tags) | left["bad"] | self.operand_tags(left)
         if left["ty"] is not None and left["ty"][0] in ("module", "alias"):
             tags.add(left["ty"][0])
         if ent is None:
@@ -756,34 +906,37 @@ class Gen:
         L.pending.append(lambda ln, col=col, exp=exp, tags=tags, width=width: self.q("c", ln, col + self.r.below(width + 1), exp, tags, "after dot"))
 
     def plain_ref(self, L, e, m, literal_ok=True):
-        """a plain identifier (or literal) with its definition query"""
+        """a plain identifier (or literal) with its definition query: a local / parameter / field / constant (also
+        one spelt like an entity, a keyword, a method), a constant of a used entity, an entity's name, a name only a
+        body-less method's parameter carries, a name nothing declares (also a keyword that is an identifier)"""
         r = self.r
         c = r.below(10)
         if c < 2 and literal_ok:
             L.add(str(r.below(100)))
             return
         blp = self.bodyless_params(e)
+        special = [d.name for d in m.params + m.locals if d.like] + [f.name for a in e.chain() for f in a.fields if f.like]
+        tags = set()
         if c < 3:
-            name = r.choice(["zzNothing", "qUnknown", "lMissing"] + [u.name for u in e.uses_written if u.kind == "ghost"])
-            exp, tags = [], {"unresolvable"}
+            name = r.choice(["zzNothing", "qUnknown", "lMissing"] + [u.name for u in e.uses_written if u.kind == "ghost"] + KWID_POOL[:3])
         elif blp and r.chance(1, 6):
             # a name a parameter of a body-less method carries: visible in no other method (it resolves
             # only when this method, the class chain or a used entity declares the name too)
             name = r.choice(blp)
-            exp = self.resolve_plain(e, m, name.upper())
-            tags = {"bodyless-param"} | ({"unresolvable"} if not exp else set())
-            if self.uses_member_hit(e, m, name.upper()):
-                if "uses-member" not in self.dev:
-                    name, exp, tags = "zzNothing", [], {"unresolvable"}
-                else:
-                    tags.add("uses-member")
+            tags = {"bodyless-param"}
+        elif special and r.chance(1, 4):
+            name = r.choice(special)
+        elif r.chance(1, 12):
+            # the name of a class / module: the entity when it is an ancestor or used and no variable hides it
+            name = r.choice(self.entities).name
+            tags = {"entity-name"}
         else:
             cands = []
             for d in m.params + m.locals:
-                cands.append((d.name, {"local"}))
+                cands.append((d.name, set()))
             for a in e.chain():
                 for d in a.fields + a.consts:
-                    cands.append((d.name, {"member" if a is e else "inherited"}))
+                    cands.append((d.name, set()))
             for u in e.uses:
                 for a in u.chain():
                     for d in a.consts:
@@ -791,19 +944,15 @@ class Gen:
                     if "uses-member" in self.dev:
                         for d in a.fields:
                             cands.append((d.name, {"uses-field"}))
-            if not cands:
-                name, exp, tags = "zzNothing", [], {"unresolvable"}
+            name, tags = r.choice(cands) if cands else ("zzNothing", set())
+            tags = set(tags)
+        exp = self.resolve_plain(e, m, name.upper())
+        if self.uses_member_hit(e, m, name.upper()):
+            if "uses-member" not in self.dev:
+                name, exp, tags = "zzNothing", [], set()
             else:
-                name, tags = r.choice(cands)
-                exp = self.resolve_plain(e, m, name.upper())
-                tags = set(tags)
-                if self.uses_member_hit(e, m, name.upper()):
-                    if "uses-member" not in self.dev:
-                        name, exp, tags = "zzNothing", [], {"unresolvable"}
-                    else:
-                        tags.add("uses-member")
-                if exp and exp[0].kind in ("param", "local") and any(a.find(name.upper()) for a in e.chain()):
-                    tags.add("shadowing")
+                tags.add("uses-member")
+        tags |= self.plain_tags(e, m, name, exp)
         txt = self.ref(name)
         col = L.col()
         L.add(txt)
@@ -812,6 +961,22 @@ class Gen:
             tags.add("recased")
         L.pending.append(lambda ln, col=col, n=len(txt), exp=exp, tags=tags, name=name: self.qdef(ln, col, n, exp, tags, "plain identifier " + name))
 
+    def plain_tags(self, e, m, name, exp):
+        """scenario tags of a plain reference `name` that the rule resolves to `exp`"""
+        if not exp:
+            return {"unresolvable"}
+        d = exp[0]
+        t = self.like_tags(d)
+        if d.kind in ("param", "local"):
+            t.add("local")
+            if any(a.find(name.upper()) for a in e.chain()):
+                t.add("shadowing")
+        elif d.kind in ("class", "module"):
+            t.add("entity")
+        elif d.owner in e.chain():
+            t.add("member" if d.owner is e else "inherited")
+        return t
+
     def stmt_start_query(self, e, m, L):
         col = L.col()
         exp = self.visible_plain(e, m)
@@ -819,7 +984,7 @@ class Gen:
 
     def statement(self, e, m, indent, depth, force=None, start_query=True):
         r = self.r
-        c = r.below(13) if force is None else force
+        c = r.below(14) if force is None else force
         L = self.Line(self, indent)
         if start_query:
             self.stmt_start_query(e, m, L)
@@ -851,22 +1016,35 @@ class Gen:
                 self.lines.append(" " * indent + self.kw("else"))
                 self.statement(e, m, indent + 3, depth + 1)
             self.lines.append(" " * indent + self.kw("endif"))
+        elif c == 13 and depth < 2:
+            L.add(self.kw("while") + " ")
+            self.plain_ref(L, e, m)
+            L.add(" < ")
+            self.plain_ref(L, e, m)
+            L.emit()
+            for _ in range(1 + r.below(2)):
+                self.statement(e, m, indent + 3, depth + 1)
+            self.lines.append(" " * indent + self.kw("endwhile"))
+        elif c == 13:
+            self.plain_stmt(L, e, m)
         elif c < 10:
             # partial member name after a dot
-            elems = self.pick_chain(e, m, maxlen=2, want_entity=True)
+            elems = self.pick_operand(e, m)
             if not elems:
                 return self.plain_stmt(L, e, m)
             self.write_chain(L, e, m, elems)
             L.add(".")
             ent = class_of(elems[-1]["ty"])
-            vis = self.visible_members(ent)
+            vis = self.visible_members(ent) if ent is not None else []
+            if ent is None and r.chance(1, 2):
+                vis = [f.name for a in e.chain() for f in a.fields]      # a prefix of a name that exists elsewhere
             pre = (r.choice(vis)[:1 + r.below(3)] if vis and r.chance(3, 4) else "zq")
             if pre.upper() in [v.upper() for v in vis]:
                 pre = pre + "Zq"
             self.dot_query(L, e, m, elems[-1], {"partial"}, width=len(pre))
             col = L.col()
             L.add(pre)
-            if not self.shadowed(e, m, ent, pre.upper()):
+            if True:
                 L.pending.append(lambda ln, col=col: self.q("d", ln, col, [], {"partial", "unresolvable", "right"}, "partial member name"))
             L.emit()
         elif c < 11:
@@ -882,9 +1060,16 @@ class Gen:
     def plain_stmt(self, L, e, m):
         r = self.r
         if r.chance(1, 3):
-            cands = [mm.decl for a in e.chain() for mm in a.methods if self.resolve_plain(e, m, mm.decl.key()) == [mm.decl]]
+            # the nearest declaration of every method name of the chain; when a local / parameter carries the name the
+            # rule selects that variable (scenario `method-named`)
+            cands = []
+            for a in e.chain():
+                for mm in a.methods:
+                    exp = self.resolve_plain(e, m, mm.decl.key())
+                    if exp and (exp == [mm.decl] or exp[0].kind in ("param", "local")):
+                        cands.append((mm.decl, exp))
             if cands:
-                d = r.choice(cands)
+                d, exp = r.choice(cands)
                 txt = self.ref(d.name)
                 col = L.col()
                 L.add(txt + "(")
@@ -893,10 +1078,10 @@ class Gen:
                         L.add(", ")
                     self.plain_ref(L, e, m)
                 L.add(")")
-                tags = {"plain", "call", "member" if d.owner is e else "inherited"}
+                tags = {"plain", "call"} | self.plain_tags(e, m, d.name, exp)
                 if txt != d.name:
                     tags.add("recased")
-                L.pending.append(lambda ln, col=col, n=len(txt), d=d, tags=tags: self.qdef(ln, col, n, [d], tags, "plain call " + d.name))
+                L.pending.append(lambda ln, col=col, n=len(txt), d=d, exp=exp, tags=tags: self.qdef(ln, col, n, exp, tags, "plain call " + d.name))
                 L.emit()
                 return
         self.plain_ref(L, e, m, literal_ok=False)
@@ -906,7 +1091,7 @@ class Gen:
 
     def dangling(self, e, m, indent, last):
         """`x.` with nothing after the dot (the line the user is typing); -> the element left of the dot"""
-        elems = self.pick_chain(e, m, maxlen=2, want_entity=True)
+        elems = self.pick_operand(e, m)
         if not elems:
             return None
         L = self.Line(self, indent)
@@ -923,11 +1108,22 @@ class Gen:
         dot keeps an empty right operand (no statement-start position is queried on that keyword: for the
         parser it still lies inside the dot expression).  An identifier can: the line continues the chain."""
         r = self.r
-        k = r.below(6)
+        k = r.below(8)
         if k == 0:
             self.lines.append(" " * indent + self.kw("exit"))
         elif k == 1 and depth < 2:
             self.statement(e, m, indent, depth, force=8, start_query=False)      # an `if` block
+        elif k == 6 and depth < 2:
+            self.statement(e, m, indent, depth, force=13, start_query=False)     # a `while` block
+        elif k == 7:
+            j = r.below(3)
+            if j < 2:
+                self.lines.append(" " * indent + self.kw(("break", "continue")[j]))
+            else:
+                L = self.Line(self, indent)
+                L.add(self.kw("return") + " ")
+                self.plain_ref(L, e, m)
+                L.emit()
         else:
             gap = (k == 5)
             if not self.continuation(e, m, indent, left, r.below(3), gap):
@@ -936,6 +1132,8 @@ class Gen:
     def member_safe(self, ent, key):
         """`key` after a dot on an operand of class `ent` is a field / method name or nothing at all (constants,
         types, `self` and entity names after a dot are outside the generator's domain)"""
+        if ent is None:
+            return True       # an operand without a class has no members at all: any name resolves to nothing
         for a in ent.chain():
             d = a.find(key)
             if d is not None and d.kind not in ("field", "proc", "func"):
@@ -952,18 +1150,20 @@ class Gen:
         ent = class_of(left["ty"])
         own_fields = [f.name for a in e.chain() for f in a.fields]
         own_methods = [mm.decl.name for a in e.chain() for mm in a.methods]
-        ent_fields = [f.name for a in ent.chain() for f in a.fields]
-        ent_methods = [mm.decl.name for a in ent.chain() for mm in a.methods]
+        ent_fields = [f.name for a in ent.chain() for f in a.fields] if ent is not None else []
+        ent_methods = [mm.decl.name for a in ent.chain() for mm in a.methods] if ent is not None else []
         if form == 1:
             names = own_methods + ent_methods + ["writeln", "WriteLn"]
         else:
             names = [d.name for d in m.params + m.locals] + own_fields + ent_fields + ["zzNothing"]
+            if form == 2:
+                names += ["self"] + [u.name for u in e.uses if u.kind == "module"]      # `self.x = 1`, `wM0.Find()` as next line
         names = [n for n in names if self.member_safe(ent, n.upper())]
         if not names:
             return False
         depth0 = left.get("depth", 1)
         name = r.choice(names)
-        decls = self.resolve_member(ent, name.upper())
+        decls = self.resolve_member(ent, name.upper()) if ent is not None else []
         is_method = bool(decls) and decls[0].kind in ("proc", "func")
         call = (form == 1) or (form == 2 and is_method and r.chance(2, 3))
         elems = [self.member_elem(e, m, left, name, depth0, call)]
